@@ -26,11 +26,12 @@ Proof.
   induction l as [|[[[[x y] w] h] c] l IH]; intros H; cbn [fills map].
   - destruct k; reflexivity.
   - pose proof (Forall_inv H) as H1. pose proof (Forall_inv_tail H) as H2. cbv beta iota delta [fill_ok] in H1.
-    unfold fill. rewrite H1, (IH H2). cbn [fill_ev]. destruct k; cbn [prepend app]; reflexivity.
+    unfold fill. destruct ((0 <? w) && (0 <? h) && upd_raises s w h (len c * Z.max 0 w * Z.max 0 h)); [discriminate|].
+    rewrite (IH H2). cbn [fill_ev]. destruct k; cbn [prepend app]; reflexivity.
 Qed.
 
 Lemma nonempty_match {A B} (b : list A) (X Y : B) : 0 < len b -> match b with [] => X | _ :: _ => Y end = Y.
-Proof. destruct b; [rewrite len_nil; lia|reflexivity]. Qed.
+Proof. destruct b; [unfold len; cbn [List.length Z.of_nat]; lia|reflexivity]. Qed.
 
 (** ** RRE: subrectangles carry U16 coordinates *)
 
@@ -71,12 +72,12 @@ Proof.
     rewrite nonempty_match by (rewrite len_app; pose proof (len_nonneg (concat (map wire_sub16 subs))); lia).
     rewrite <- L, take_app_exact.
     destruct q as [[[[c sx] sy] sw] sh]. rewrite (unpack_sub16 bp c sx sy sw sh Hbp H1).
-    rewrite (IH fuel H2) by (cbn [List.length] in Hf; lia). reflexivity.
+    rewrite L. rewrite (IH fuel H2) by (cbn [List.length] in Hf; lia). reflexivity.
 Qed.
 
 Lemma concat_sub16_len bp subs : Forall (sub16_ok bp) subs -> len (concat (map wire_sub16 subs)) = (bp + 8) * len subs.
 Proof.
-  induction subs as [|q subs IH]; intros H; cbn [map concat]; [rewrite !len_nil; lia|].
+  induction subs as [|q subs IH]; intros H; cbn [map concat]; [unfold len; cbn [List.length Z.of_nat]; lia|].
   rewrite len_app, len_cons, (wire_sub16_len bp q (Forall_inv H)), (IH (Forall_inv_tail H)). lia.
 Qed.
 
@@ -119,25 +120,29 @@ Proof.
   destruct subs as [|q subs'].
   - (* no subrectangle: the rectangle ends after the background *)
     cbn [map concat app]. cbn [len List.length Z.of_nat] in *.
-    change ([EFill x y w h bg] ++ [] ++ es2 ++ es) with ([] ++ ([EFill x y w h bg] ++ es2) ++ es).
+    match goal with |- Drain _ _ _ ?E _ _ => change E with ([] ++ ([EFill x y w h bg] ++ es2) ++ es) end.
     replace (2 + n)%nat with (S (S n)) by lia.
     eapply D_step; [exact Ht|exact Hstep1|]. cbn [next_pend].
     eapply D_step.
     + cbn [need]. rewrite <- Ln. rewrite app_assoc. apply take_app_exact.
     + cbn [step]. rewrite T4, Hun4. change (0 =? 0) with true. cbv iota.
-      unfold fill. cbv beta iota delta [fill_ok] in Hf0. rewrite Hf0, Hd. cbn [prepend]. reflexivity.
+      unfold fill. cbv beta iota delta [fill_ok] in Hf0.
+      destruct ((0 <? w) && (0 <? h) && upd_raises s1 w h (len bg * Z.max 0 w * Z.max 0 h)); [discriminate|].
+      rewrite Hd. cbn [prepend]. reflexivity.
     + cbn [next_pend]. exact HD.
   - set (subs := q :: subs') in *.
     assert (Hpos : len subs <> 0) by (unfold subs; rewrite len_cons; pose proof (len_nonneg subs'); lia).
-    change ([EFill x y w h bg] ++ map fill_ev (map (sub_fill x y) subs) ++ es2 ++ es)
-      with ([] ++ [EFill x y w h bg] ++ (map fill_ev (map (sub_fill x y) subs) ++ es2) ++ es). rewrite <- app_assoc.
+    match goal with |- Drain _ _ _ ?E _ _ =>
+      change E with ([] ++ [EFill x y w h bg] ++ (map fill_ev (map (sub_fill x y) subs) ++ es2 ++ es)) end.
     replace (3 + n)%nat with (S (S (S n))) by lia.
     eapply D_step; [exact Ht|exact Hstep1|]. cbn [next_pend].
     eapply D_step.
     + cbn [need]. rewrite <- Ln. rewrite app_assoc. apply take_app_exact.
     + cbn [step]. rewrite T4, Hun4. destruct (Z.eqb_spec (len subs) 0) as [E|_]; [contradiction|].
-      unfold fill. cbv beta iota delta [fill_ok] in Hf0. rewrite Hf0. cbn [prepend ok app]. reflexivity.
-    + cbn [next_pend]. rewrite app_assoc.
+      unfold fill. cbv beta iota delta [fill_ok] in Hf0.
+      destruct ((0 <? w) && (0 <? h) && upd_raises s1 w h (len bg * Z.max 0 w * Z.max 0 h)); [discriminate|].
+      cbn [prepend ok app]. reflexivity.
+    + cbn [next_pend]. rewrite (app_assoc (map fill_ev (map (sub_fill x y) subs)) es2 es).
       eapply D_step.
       * cbn [need]. rewrite B1. replace ((8 + bypp s) * len subs) with (len (concat (map wire_sub16 subs)))
           by (rewrite (concat_sub16_len (bypp s) subs Hsubs); lia). apply take_app_exact.
@@ -146,5 +151,125 @@ Proof.
         rewrite (subrects16 (bypp s) x y Hbp subs _ Hsubs).
         -- rewrite (fills_ok s1 _ _ Hfs), Hd. cbn [prepend]. reflexivity.
         -- pose proof (concat_sub16_len (bypp s) subs Hsubs) as L. unfold len in L. nia.
+      * cbn [next_pend]. exact HD.
+Qed.
+
+(** ** CoRRE: the same with single-byte coordinates *)
+
+Definition u8ok (v : Z) : Prop := 0 <= v < 256.
+
+Definition wire_sub8 (q : sub) : bytes := let '(c, sx, sy, sw, sh) := q in c ++ [sx; sy; sw; sh].
+
+Definition sub8_ok (bp : Z) (q : sub) : Prop :=
+  let '(c, sx, sy, sw, sh) := q in len c = bp /\ u8ok sx /\ u8ok sy /\ u8ok sw /\ u8ok sh.
+
+Lemma wire_sub8_len bp q : sub8_ok bp q -> len (wire_sub8 q) = bp + 4.
+Proof.
+  destruct q as [[[[c sx] sy] sw] sh]. cbn [sub8_ok wire_sub8]. intros (Hc & _).
+  rewrite !len_app, Hc. unfold len. cbn [List.length Z.of_nat]. lia.
+Qed.
+
+Lemma be_dec1 a : be_dec [a] = a.
+Proof. unfold be_dec. cbn [be_dec_acc]. lia. Qed.
+
+Lemma unpack_sub8 bp c sx sy sw sh : 0 <= bp -> sub8_ok bp (c, sx, sy, sw, sh) ->
+  unpack (fmt_rfb_RFBClient_handleDecodeCORRERectangles_0 bp) (wire_sub8 (c, sx, sy, sw, sh)) =
+  Some [VS c; VI sx; VI sy; VI sw; VI sh].
+Proof.
+  intros Hbp (Hc & _). unfold fmt_rfb_RFBClient_handleDecodeCORRERectangles_0, wire_sub8.
+  cbn [unpack fsize]. rewrite Z.max_r by exact Hbp. rewrite <- Hc, take_app_exact.
+  cbn [unpack fsize take Z.leb Z.compare Z.sub Z.add Z.opp Z.pos_sub Pos.compare Pos.compare_cont Pos.pred_double unpack1 map].
+  rewrite !be_dec1. reflexivity.
+Qed.
+
+Lemma subrects8 bp x y : 0 <= bp -> forall subs fuel, Forall (sub8_ok bp) subs -> (List.length subs <= fuel)%nat ->
+  subrects fuel (fmt_rfb_RFBClient_handleDecodeCORRERectangles_0 bp) (bp + 4) (concat (map wire_sub8 subs)) x y =
+  Some (map (sub_fill x y) subs).
+Proof.
+  intros Hbp. induction subs as [|q subs IH]; intros fuel Hok Hf.
+  - destruct fuel; reflexivity.
+  - destruct fuel as [|fuel]; [cbn [List.length] in Hf; lia|].
+    pose proof (Forall_inv Hok) as H1. pose proof (Forall_inv_tail Hok) as H2.
+    cbn [map concat subrects]. pose proof (wire_sub8_len bp q H1) as L.
+    rewrite nonempty_match by (rewrite len_app; pose proof (len_nonneg (concat (map wire_sub8 subs))); lia).
+    rewrite <- L, take_app_exact.
+    destruct q as [[[[c sx] sy] sw] sh]. rewrite (unpack_sub8 bp c sx sy sw sh Hbp H1).
+    rewrite L. rewrite (IH fuel H2) by (cbn [List.length] in Hf; lia). reflexivity.
+Qed.
+
+Lemma concat_sub8_len bp subs : Forall (sub8_ok bp) subs -> len (concat (map wire_sub8 subs)) = (bp + 4) * len subs.
+Proof.
+  induction subs as [|q subs IH]; intros H; cbn [map concat]; [unfold len; cbn [List.length Z.of_nat]; lia|].
+  rewrite len_app, len_cons, (wire_sub8_len bp q (Forall_inv H)), (IH (Forall_inv_tail H)). lia.
+Qed.
+
+Definition wire_corre (x y w h : Z) (bg : bytes) (subs : list sub) : bytes :=
+  rect_hdr x y w h [0; 0; 0; 4] ++ be_enc 4 (len subs) ++ bg ++ concat (map wire_sub8 subs).
+
+Theorem corre_roundtrip s x y w h bg subs tail s2 p2 es2 es r n :
+  u16ok x -> u16ok y -> u16ok w -> u16ok h ->
+  rects s <> 0 -> 0 <= bypp s ->
+  let s1 := enter_rect s x y w h in
+  len bg = bypp s -> len subs < 4294967296 -> Forall (sub8_ok (bypp s)) subs ->
+  fill_ok s1 (x, y, w, h, bg) -> Forall (fill_ok s1) (map (sub_fill x y) subs) ->
+  do_connection s1 = Ok s2 (Some p2) es2 ->
+  Drain s2 p2 tail es r n ->
+  Drain s PRect (wire_corre x y w h bg subs ++ tail)
+        ([EFill x y w h bg] ++ map fill_ev (map (sub_fill x y) subs) ++ es2 ++ es) r
+        (match subs with [] => 2 | _ => 3 end + n).
+Proof.
+  intros Hx Hy Hw Hh Hr Hbp s1 Hbg Hn Hsubs Hf0 Hfs Hd HD.
+  assert (B1 : bypp s1 = bypp s) by reflexivity.
+  unfold wire_corre. rewrite <- !app_assoc.
+  destruct (rect_hdr_unpack x y w h [0; 0; 0; 4] (be_enc 4 (len subs) ++ bg ++ concat (map wire_sub8 subs) ++ tail) Hx Hy Hw Hh eq_refl) as [Ht Hun].
+  assert (Hstep1 : step s PRect (rect_hdr x y w h [0; 0; 0; 4]) = Ok s1 (Some (PCoRRE (4 + bypp s1) x y w h)) []).
+  { cbn [step]. rewrite Hun. change (to_s32 (be_dec [0; 0; 0; 4])) with 4.
+    change (4 =? ENC_PSEUDO_LAST_RECT) with false. cbv iota.
+    destruct (Z.eqb_spec (rects s) 0) as [E|_]; [contradiction|].
+    change (4 =? ENC_COPY_RECTANGLE) with false. change (4 =? ENC_RAW) with false.
+    change (4 =? ENC_HEXTILE) with false. change (4 =? ENC_CORRE) with true.
+    cbv iota. reflexivity. }
+  assert (Ln : len (be_enc 4 (len subs) ++ bg) = 4 + bypp s1).
+  { rewrite len_app, Hbg, B1. unfold len at 1. rewrite be_enc_length. lia. }
+  assert (Hun4 : unpackZ fmt_rfb_RFBClient_handleDecodeCORRE_0 (be_enc 4 (len subs)) = Some [len subs]).
+  { pose proof (be_dec_enc 4 (len subs)) as D. pose proof (len_nonneg subs).
+    assert (D' : be_dec (be_enc 4 (len subs)) = len subs) by (apply D; change (256 ^ Z.of_nat 4) with 4294967296; lia).
+    unfold unpackZ, fmt_rfb_RFBClient_handleDecodeCORRE_0. cbn [unpack fsize].
+    change 4 with (len (be_enc 4 (len subs))) at 1.
+    rewrite <- (app_nil_r (be_enc 4 (len subs))) at 2. rewrite take_app_exact. cbn [unpack unpack1 map]. rewrite D'. reflexivity. }
+  assert (T4 : take 4 (be_enc 4 (len subs) ++ bg) = Some (be_enc 4 (len subs), bg)).
+  { change 4 with (len (be_enc 4 (len subs))) at 1. apply take_app_exact. }
+  destruct subs as [|q subs'].
+  - cbn [map concat app]. cbn [len List.length Z.of_nat] in *.
+    match goal with |- Drain _ _ _ ?E _ _ => change E with ([] ++ ([EFill x y w h bg] ++ es2) ++ es) end.
+    replace (2 + n)%nat with (S (S n)) by lia.
+    eapply D_step; [exact Ht|exact Hstep1|]. cbn [next_pend].
+    eapply D_step.
+    + cbn [need]. rewrite <- Ln. rewrite app_assoc. apply take_app_exact.
+    + cbn [step]. rewrite T4, Hun4. change (0 =? 0) with true. cbv iota.
+      unfold fill. cbv beta iota delta [fill_ok] in Hf0.
+      destruct ((0 <? w) && (0 <? h) && upd_raises s1 w h (len bg * Z.max 0 w * Z.max 0 h)); [discriminate|].
+      rewrite Hd. cbn [prepend]. reflexivity.
+    + cbn [next_pend]. exact HD.
+  - set (subs := q :: subs') in *.
+    assert (Hpos : len subs <> 0) by (unfold subs; rewrite len_cons; pose proof (len_nonneg subs'); lia).
+    match goal with |- Drain _ _ _ ?E _ _ =>
+      change E with ([] ++ [EFill x y w h bg] ++ (map fill_ev (map (sub_fill x y) subs) ++ es2 ++ es)) end.
+    replace (3 + n)%nat with (S (S (S n))) by lia.
+    eapply D_step; [exact Ht|exact Hstep1|]. cbn [next_pend].
+    eapply D_step.
+    + cbn [need]. rewrite <- Ln. rewrite app_assoc. apply take_app_exact.
+    + cbn [step]. rewrite T4, Hun4. destruct (Z.eqb_spec (len subs) 0) as [E|_]; [contradiction|].
+      unfold fill. cbv beta iota delta [fill_ok] in Hf0.
+      destruct ((0 <? w) && (0 <? h) && upd_raises s1 w h (len bg * Z.max 0 w * Z.max 0 h)); [discriminate|].
+      cbn [prepend ok app]. reflexivity.
+    + cbn [next_pend]. rewrite (app_assoc (map fill_ev (map (sub_fill x y) subs)) es2 es).
+      eapply D_step.
+      * cbn [need]. rewrite B1. replace ((4 + bypp s) * len subs) with (len (concat (map wire_sub8 subs)))
+          by (rewrite (concat_sub8_len (bypp s) subs Hsubs); lia). apply take_app_exact.
+      * cbn [step]. rewrite B1.
+        rewrite (subrects8 (bypp s) x y Hbp subs _ Hsubs).
+        -- rewrite (fills_ok s1 _ _ Hfs), Hd. cbn [prepend]. reflexivity.
+        -- pose proof (concat_sub8_len (bypp s) subs Hsubs) as L. unfold len in L. nia.
       * cbn [next_pend]. exact HD.
 Qed.
